@@ -17,4 +17,22 @@ extern int tsg_exc;
 #ifdef TSG_CBMC
 int nondet_int(void); unsigned nondet_uint(void); double nondet_double(void); _Bool nondet_bool(void); size_t nondet_size_t(void);
 #endif
+/* ---- rule R5: fixed-capacity stand-ins for local std::vector objects.  A local
+ * `std::vector<T> v` becomes `T v[v_cap]; size_t v_size;`; exceeding the capacity is an
+ * assertion failure, never silently assumed. */
+#define TSG_VEC_NEW(T, a, CAP) T a[CAP]; size_t a##_size = 0; const size_t a##_cap = (CAP)
+#define TSG_DEF_VEC_OPS(T) \
+static inline void tsg_fill_##T(T *a, size_t n, T v){ for(size_t k_ = 0; k_ < n; k_++) a[k_] = v; } \
+static inline void tsg_copy_n_##T(const T *src, size_t n, T *dst){ for(size_t k_ = 0; k_ < n; k_++) dst[k_] = src[k_]; } \
+static inline void tsg_sized_##T(T *a, size_t *a_size, size_t cap, size_t n, T v){ __CPROVER_assert(n <= cap, "shim: local vector capacity suffices"); *a_size = n; tsg_fill_##T(a, n, v); } \
+static inline void tsg_resize_##T(T *a, size_t *a_size, size_t cap, size_t n){ __CPROVER_assert(n <= cap, "shim: local vector capacity suffices"); for(size_t k_ = *a_size; k_ < n; k_++) a[k_] = (T)0; *a_size = n; } \
+static inline void tsg_append_##T(T *a, size_t *a_size, size_t cap, const T *b, size_t n){ __CPROVER_assert(*a_size + n <= cap, "shim: local vector capacity suffices"); for(size_t k_ = 0; k_ < n; k_++) a[*a_size + k_] = b[k_]; *a_size += n; }
+#ifndef TSG_CBMC
+#include <assert.h>
+#define __CPROVER_assert(c, m) assert(c)
+#endif
+TSG_DEF_VEC_OPS(double)
+TSG_DEF_VEC_OPS(int)
+TSG_DEF_VEC_OPS(bool)
+#define TSG_RESERVE(a, n) __CPROVER_assert((n) <= a##_cap, "shim: local vector capacity suffices")
 #endif
